@@ -18,9 +18,11 @@ import (
 	"math/rand"
 	"os"
 	"os/exec"
+	"os/signal"
 	"path/filepath"
 	"strings"
 	"sync"
+	"syscall"
 	"time"
 
 	"verifharness/vh"
@@ -38,6 +40,10 @@ type c18Plan struct {
 	Alphabet    string     `json:"alphabet"`
 	Workers     int        `json:"workers"`
 	TimeoutMs   int        `json:"timeout_ms"`
+	Every       int        `json:"every"`  // crash phase: every n-th byte offset is a crash point (1 = all)
+	Extra       int        `json:"extra"`  // crash phase: additional seeded random crash points per history
+	Points      []int      `json:"points"` // crash phase: explicit crash points (replay)
+	Repeat      int        `json:"repeat"` // crash phase: executions per crash point (the block order in the file follows Go map order)
 }
 
 type lineInfo struct {
@@ -164,6 +170,8 @@ func c18Main(planPath, outPath, dir string, seed int64, stdout *os.File) {
 		c18Produce(p, dir, seed, stdout)
 	case "exec":
 		c18Exec(p, outPath, dir, seed, stdout)
+	case "crash":
+		c18Crash(p, outPath, dir, seed, stdout)
 	default:
 		fmt.Fprintln(os.Stderr, "unknown phase", p.Phase)
 		os.Exit(2)
@@ -632,4 +640,156 @@ func c18Restart(d *driver, t c18Task) (res *c18Result) {
 	}
 	d.drain()
 	return res
+}
+
+// ---- crash during the rewrite of the lease file ------------------------------------------------------------------
+//
+// The last step of every history is a REQUEST that is acknowledged, i.e. a rewrite of the lease file over its previous
+// version. The rewrite is interrupted after k bytes for real: RLIMIT_FSIZE is lowered to k for that one packet (SIGXFSZ
+// ignored), so the file system refuses everything beyond offset k exactly as a crash at that point would leave it.
+// Whatever the implementation left on disk (HEAD: a prefix of the new content, because WriteFile truncates first) is
+// then given to a new handler on a new session, and the table it loads is reported together with every binding that was
+// ever acknowledged in the history.
+
+type c18CrashResult struct {
+	N     int        `json:"n"`
+	Hist  int        `json:"hist"`
+	K     int        `json:"k"`
+	Size  int        `json:"size"` // size of the file left behind
+	Old   int        `json:"old"`  // size of the previous version
+	Panic bool       `json:"panic"`
+	Hang  bool       `json:"hang"`
+	Msg   string     `json:"msg"`
+	Acked bool       `json:"acked"` // the interrupted step was acknowledged to the client
+	Table []LeaseP   `json:"table"`
+	Ever  []bindingP `json:"ever"`
+}
+
+func c18Crash(p c18Plan, outPath, dir string, seed int64, stdout *os.File) {
+	signal.Ignore(syscall.SIGXFSZ)
+	var orig syscall.Rlimit
+	if err := syscall.Getrlimit(syscall.RLIMIT_FSIZE, &orig); err != nil {
+		fmt.Fprintln(os.Stderr, "getrlimit:", err)
+		os.Exit(2)
+	}
+	limit := func(k int) {
+		l := orig
+		l.Cur = uint64(k)
+		syscall.Setrlimit(syscall.RLIMIT_FSIZE, &l)
+	}
+	unlimit := func() { syscall.Setrlimit(syscall.RLIMIT_FSIZE, &orig) }
+	rng := rand.New(rand.NewSource(seed))
+	d := &driver{rng: rand.New(rand.NewSource(seed)), rx: make([]byte, 0, 2048), dir: dir, file: filepath.Join(dir, "leases.yaml")}
+	every, repeat := p.Every, p.Repeat
+	if every <= 0 {
+		every = 1
+	}
+	if repeat <= 0 {
+		repeat = 1
+	}
+	var results []c18CrashResult
+	one := func(hi int, h []action, k int) (res c18CrashResult) {
+		res = c18CrashResult{Hist: hi, K: k, Table: []LeaseP{}, Ever: []bindingP{}}
+		phase := "history"
+		defer func() {
+			unlimit()
+			if r := recover(); r != nil {
+				res.Panic, res.Msg = true, phase+": "+fmt.Sprint(r)
+			}
+		}()
+		if err := d.reset(p.Cfg, p.Mode, false); err != nil {
+			panic("reset: " + err.Error())
+		}
+		ever := map[bindingP]bool{}
+		note := func(a action, rec map[string]interface{}) bool {
+			acked := false
+			if rs, ok := rec["replies"].([]ReplyP); ok {
+				for _, r := range rs {
+					if r.T == "ack" {
+						ever[bindingP{K: a.s("k"), MAC: r.MAC, IP: r.YI}] = true
+						acked = true
+					}
+				}
+			}
+			return acked
+		}
+		for _, a := range h[:len(h)-1] {
+			rec := d.step(a)
+			if rec["panic"] != nil {
+				panic(fmt.Sprint(rec["panic"]))
+			}
+			note(a, rec)
+		}
+		if st, err := os.Stat(d.file); err == nil {
+			res.Old = int(st.Size())
+		}
+		phase = "interrupted rewrite"
+		last := h[len(h)-1]
+		limit(k)
+		rec := d.step(last)
+		unlimit()
+		if rec["panic"] != nil {
+			panic(fmt.Sprint(rec["panic"]))
+		}
+		res.Acked = note(last, rec)
+		for b := range ever {
+			res.Ever = append(res.Ever, b)
+		}
+		if st, err := os.Stat(d.file); err == nil {
+			res.Size = int(st.Size())
+		}
+		phase = "restart"
+		d.h = nil
+		if err := d.newSession(); err != nil {
+			panic("session: " + err.Error())
+		}
+		d.fileStamp = ""
+		if err := d.newHandler(); err != nil {
+			res.Msg = "new: " + err.Error()
+			d.h = nil
+			return res
+		}
+		res.Table = d.leases()
+		return res
+	}
+	for hi, h := range p.Histories {
+		if len(h) < 2 {
+			continue
+		}
+		// size of the file a complete run leaves (upper bound of the interesting crash points)
+		probe := one(hi+1, h, 1<<30)
+		max := probe.Size + 8
+		pts := map[int]bool{0: true, probe.Size: true}
+		for k := 0; k <= max; k += every {
+			pts[k] = true
+		}
+		for _, k := range p.Points {
+			pts[k] = true
+		}
+		for i := 0; i < p.Extra; i++ {
+			pts[rng.Intn(max+1)] = true
+		}
+		for k := range pts {
+			for r := 0; r < repeat; r++ {
+				res := one(hi+1, h, k)
+				res.N = len(results) + 1
+				results = append(results, res)
+			}
+		}
+	}
+	of, err := os.Create(outPath)
+	if err != nil {
+		fmt.Fprintln(os.Stderr, err)
+		os.Exit(2)
+	}
+	enc := json.NewEncoder(of)
+	panics := 0
+	for _, r := range results {
+		if r.Panic {
+			panics++
+		}
+		enc.Encode(r)
+	}
+	of.Close()
+	fmt.Fprintf(stdout, "{\"histories\":%d,\"crash_points\":%d,\"panics\":%d}\n", len(p.Histories), len(results), panics)
 }
